@@ -4,7 +4,8 @@ import Account.Lifecycle
 # `c11_model` — runs `Account.C11.entry` (dispatch + lifecycle) on the harness's op lines
 
   tbl <set> <width> <align> <dischex>:<hid> ...      -> ok <n> | bad-op
-  ixs <hid>:<alen>:<fields> ...                       -> ok | bad-op
+  ixs <hid>:<alen>:<set> ...                          -> ok | bad-op
+      set = L<pid> | N<sid>[b][e][x](<name>{<req}[!s|f|r..]=<set>,…)
   ix <off> <datahex> <naccts> <plan>                  -> t=<trace> r=<ok|bN|cN>
 -/
 open Common.Proto
@@ -36,29 +37,81 @@ def parseArm (w : Nat) (tok : String) : Option (List Nat × Nat) :=
     if bs.length = w then some (bs, hid) else none
   | _ => none
 
-def parseField (tok : String) : Option Field :=
-  match tok.splitOn "<" with
-  | [] => none
-  | n :: rs => do
-    let name ← n.toNat?
-    let reqs ← allM String.toNat? rs
-    pure (name, reqs)
+/-- leading decimal number -/
+def takeNat (cs : List Char) : Option (Nat × List Char) :=
+  let ds := cs.takeWhile Char.isDigit
+  if ds.isEmpty then none else (String.ofList ds).toNat?.map (fun n => (n, cs.drop ds.length))
 
-def parseFields (tok : String) : Option (List Field) :=
-  if tok = "-" then some [] else allM parseField (tok.splitOn "/")
+/-- `{<req}` -/
+def takeReqs : Nat → List Char → Option (List Nat × List Char)
+  | 0, _ => none
+  | fuel + 1, '<' :: cs => do
+    let (r, cs) ← takeNat cs
+    let (rs, cs) ← takeReqs fuel cs
+    pure (r :: rs, cs)
+  | _, cs => some ([], cs)
+
+def takeFlags (allowed : List Char) (cs : List Char) : List Char × List Char :=
+  (cs.takeWhile allowed.contains, cs.dropWhile allowed.contains)
+
+mutual
+/-- set := `L<pid>` | `N<sid>[b][e][x](field,field,…)` -/
+def parseSet : Nat → List Char → Option (ASet × List Char)
+  | 0, _ => none
+  | fuel + 1, 'L' :: cs => do
+    let (p, cs) ← takeNat cs
+    pure (.leaf p, cs)
+  | fuel + 1, 'N' :: cs => do
+    let (sid, cs) ← takeNat cs
+    let (fl, cs) := takeFlags ['b', 'e', 'x'] cs
+    match cs with
+    | '(' :: ')' :: cs => pure (.node sid (fl.contains 'b') (fl.contains 'e') (fl.contains 'x') [], cs)
+    | '(' :: cs => do
+      let (fs, cs) ← parseFieldsT fuel cs
+      pure (.node sid (fl.contains 'b') (fl.contains 'e') (fl.contains 'x') fs, cs)
+    | _ => none
+  | _, _ => none
+/-- field := `<name>{<req}[!flags]=<set>`, fields separated by `,`, list closed by `)` -/
+def parseFieldsT : Nat → List Char → Option (List (FieldHdr × ASet) × List Char)
+  | 0, _ => none
+  | fuel + 1, cs => do
+    let (name, cs) ← takeNat cs
+    let (reqs, cs) ← takeReqs (cs.length + 1) cs
+    let (fl, cs) := match cs with
+      | '!' :: cs => takeFlags ['s', 'f', 'r'] cs
+      | cs => ([], cs)
+    match cs with
+    | '=' :: cs => do
+      let (sub, cs) ← parseSet fuel cs
+      let hdr : FieldHdr := ⟨name, reqs, fl.contains 's', fl.contains 'f', fl.contains 'r'⟩
+      match cs with
+      | ',' :: cs => do
+        let (rest, cs) ← parseFieldsT fuel cs
+        pure ((hdr, sub) :: rest, cs)
+      | ')' :: cs => pure ([(hdr, sub)], cs)
+      | _ => none
+    | _ => none
+end
+
+def parseSetTok (tok : String) : Option ASet :=
+  match parseSet (tok.length + 1) tok.toList with
+  | some (t, []) => some t
+  | _ => none
 
 def parseIxDecl (tok : String) : Option Ix :=
   match tok.splitOn ":" with
-  | [h, a, fs] => do
+  | [h, a, t] => do
     let hid ← h.toNat?
     let alen ← a.toNat?
-    let fields ← parseFields fs
-    pure ⟨hid, alen, fields⟩
+    let set ← parseSetTok t
+    pure ⟨hid, alen, set⟩
   | _ => none
 
 def parsePhase (c : Char) : Option Phase :=
   if c = 'a' then some .args else if c = 'd' then some .decode else if c = 'v' then some .validate
-  else if c = 'p' then some .process else if c = 'c' then some .cleanup else none
+  else if c = 'p' then some .process else if c = 'c' then some .cleanup
+  else if c = 'B' then some .vbefore else if c = 'E' then some .vextra else if c = 'X' then some .cextra
+  else none
 
 def parseErr (s : String) : Option Err :=
   match s.toList with
@@ -94,14 +147,20 @@ def parsePlan (tok : String) : Option FaultPlan :=
 
 def phaseChar : Phase → String
   | .args => "a" | .decode => "d" | .validate => "v" | .process => "p" | .cleanup => "c"
+  | .vbefore => "B" | .vextra => "E" | .cextra => "X"
 
-def showEvent (e : Event) : String :=
+/-- a cached leaf is printed as its position in the account list (= decode order) -/
+def showCached (order : List Nat) : Option Nat → String
+  | none => "-"
+  | some p => toString (order.idxOf p)
+
+def showEvent (order : List Nat) (e : Event) : String :=
   match e.phase with
-  | .process => s!"p{e.tag}:{toHex e.payload}"
+  | .process => s!"p{e.tag}:{toHex e.payload}:{showCached order e.funder}:{showCached order e.recipient}"
   | ph => s!"{phaseChar ph}{e.tag}"
 
-def showTrace (tr : Trace) : String :=
-  if tr.isEmpty then "-" else ".".intercalate (tr.map showEvent)
+def showTrace (order : List Nat) (tr : Trace) : String :=
+  if tr.isEmpty then "-" else ".".intercalate (tr.map (showEvent order))
 
 def showResult : Result → String
   | .ok => "ok"
@@ -138,7 +197,11 @@ def step (st : St) (toks : List String) : St × String :=
         if off > 7 ∨ n > 16 then (st, "bad-op")
         else
           let (tr, r) := entry t ixs off bs n pl
-          (st, s!"t={showTrace tr} r={showResult r}")
+          -- the instruction that ran (if any) fixes how cached leaves are printed
+          let order := match tr.head? with
+            | some e => ((ixs.find? (fun i => i.id == e.tag)).map (·.set.decodeOrder)).getD []
+            | none => []
+          (st, s!"t={showTrace order tr} r={showResult r}")
       | _, _, _, _ => (st, "bad-op")
     | _, _ => (st, "bad-op")
   | _ => (st, "bad-op")
